@@ -24,6 +24,7 @@ type Obligation struct {
 	Func     string
 	Finding  *Finding // for canaries
 	NRegions int
+	Using    []string // labelled hypotheses this obligation uses (nil: all)
 }
 
 // Engine translates one function (plus what it inlines) into one Script.
@@ -72,6 +73,7 @@ type Engine struct {
 	pureMemo      map[string]Val
 	rootArgs      []Val
 	inInit        bool
+	lastSortP     string // permutation array of the most recent sort call (ghost: vcSortPerm)
 	allocBase     string // loop allocation base of the block being executed ("" outside loops)
 	loopAllocN    map[string]int
 	lastLoopBase  string
@@ -603,6 +605,20 @@ func (e *Engine) execBlock(fr *frame, b *ssa.BasicBlock, entryReach string, entr
 			st.reachIn = "false"
 		} else {
 			st.reachIn = e.sc.define(fmt.Sprintf("r_%s_b%d", fr.fn.Name(), b.Index), SBool, or(conds...))
+		}
+	}
+	// the only way into this block is the exit edge of a loop header: the state is the loop-head
+	// state (under the negated loop condition); nothing the body did on the shared heap is visible
+	if len(b.Preds) == 1 {
+		if pl := fr.loops[b.Preds[0]]; pl != nil && !pl.blocks[b] {
+			if ls := e.loopStates[pl]; ls != nil && ls.heap != nil {
+				for k := range heap {
+					delete(heap, k)
+				}
+				for k, v := range ls.heap {
+					heap[k] = v
+				}
+			}
 		}
 	}
 	reach := st.reachIn
